@@ -635,12 +635,22 @@ func runScenario(d *driver, kind string) {
 			if d.r.Intn(2) == 0 {
 				d.round(li)
 			}
+			// last repetition, half of the time: the sequencer STOPS while the submitter is still inside its issuer upload;
+			// the submission reaches the pool of a stopped log and must fail (seed C17-6: pool captured before the upload)
+			stopHere := rep == 2 && d.r.Intn(2) == 0
+			if stopHere {
+				d.stats["straddle-stop-while-held"]++
+				d.stop(li)
+			}
 			d.w.mu.Lock()
 			li.in.holdIssuer = false
 			d.w.cond.Broadcast()
 			d.w.mu.Unlock()
 			<-done
 			d.sync()
+			if stopHere {
+				break
+			}
 			d.round(li)
 			d.round(li)
 		}
